@@ -1,6 +1,7 @@
 use crate::mon::evidence::Tier;
 
 pub mod common;
+pub mod c03;
 pub mod c05;
 pub mod c07;
 pub mod c19;
@@ -8,6 +9,7 @@ pub mod c20;
 
 pub fn dispatch(id: &str, tier: Tier, seed: u64, _sub: Option<&str>) -> i32 {
     match id {
+        "C03" => c03::run(tier, seed),
         "C05" => c05::run(tier, seed),
         "C07" => c07::run(tier, seed),
         "C19" => c19::run(tier, seed),
